@@ -1,4 +1,4 @@
 From Coq Require Import List Arith.
-From BQ Require Import rt.ServerM.
+From BQ Require Import rt.ServerM rt.ServerSend.
 From Coq Require Extraction ExtrOcamlBasic.
-Extraction "server_model.ml" init step run spec0 sstep srun wf_ev wf_run answers.
+Extraction "server_model.ml" init step run spec0 sstep srun wf_ev wf_run answers send_all mkSender.
